@@ -82,6 +82,14 @@ class Report:
         known = self._known()
         unlisted = []
         listed = []
+        seen_keys = set()
+        uniq = []
+        for v in self.violations:
+            if v['key'] in seen_keys:
+                continue
+            seen_keys.add(v['key'])
+            uniq.append(v)
+        self.violations = uniq
         for v in self.violations:
             if v['key'] in known:
                 listed.append(v)
@@ -126,7 +134,7 @@ class Report:
                     'identified by rule id + function def path + callee/field/ordinal (no line numbers)',
             'rules': self.rules,
             'obligations': n_inst,
-            'discharged': n_ok + len(listed),
+            'discharged': n_ok + sum(1 for i in self.instances if not i['ok'] and ('%s/%s/%s' % (self.prop, i['rule'], i['key'])) in known),
             'evaluations': max(n_inst, 1),
             'distinct_nontrivial': distinct,
             'samples': samples or [{'note': 'no instance'}],
@@ -160,5 +168,5 @@ class Report:
         if self.broken:
             return 2
         print('[%s] OK: %d obligations, %d discharged, %d known finding(s); %.1fs' % (
-            self.prop, n_inst, n_ok + len(listed), len(listed), wall))
+            self.prop, n_inst, cov['discharged'], len(listed), wall))
         return 0
